@@ -69,14 +69,17 @@ func (rm *ResourceManagement) OnRequestDrop(APIStream publicTypes.APIStreamI) {
 		log.Debug().Msgf("Could not locate quota resource with ID %s", APIStream.GetID())
 		return
 	}
-	quotaObj, ok := outVal.(publicTypes.QuotaResourceI)
+	quotaObjs, ok := outVal.([]publicTypes.QuotaResourceI)
 	if !ok {
 		log.Debug().Msgf("Could not convert quota resource with ID %s", APIStream.GetID())
 		return
 	}
 
-	if err := (quotaObj).Dec(APIStream); err != nil {
-		log.Warn().Err(err).Msgf("Failed to decrement quota for request %s", APIStream.GetID())
+	// A transaction may have consulted several quotas: every one of them is released.
+	for _, quotaObj := range quotaObjs {
+		if err := quotaObj.Dec(APIStream); err != nil {
+			log.Warn().Err(err).Msgf("Failed to decrement quota for request %s", APIStream.GetID())
+		}
 	}
 }
 
@@ -98,15 +101,31 @@ func (rm *ResourceManagement) GetQuota(
 	}
 
 	if reqID != "" {
-		if !rm.reqIDToQuota.Exists(reqID) {
-			if err := rm.reqIDToQuota.Set(reqID, quotaObj); err != nil {
-				log.Debug().Err(err).
-					Msgf("Failed to set quota resource with ID %s for request %s", quotaID, reqID)
-			}
+		if err := rm.rememberQuotaOfRequest(reqID, quotaObj); err != nil {
+			log.Debug().Err(err).
+				Msgf("Failed to set quota resource with ID %s for request %s", quotaID, reqID)
 		}
 	}
 
 	return quotaObj, nil
+}
+
+// rememberQuotaOfRequest records that the request consulted the quota, so that
+// every quota it holds can be released if the request is dropped.
+func (rm *ResourceManagement) rememberQuotaOfRequest(
+	reqID string,
+	quotaObj publicTypes.QuotaResourceI,
+) error {
+	var quotaObjs []publicTypes.QuotaResourceI
+	if known, err := rm.reqIDToQuota.Get(reqID); err == nil {
+		quotaObjs, _ = known.([]publicTypes.QuotaResourceI)
+	}
+	for _, known := range quotaObjs {
+		if known == quotaObj {
+			return nil
+		}
+	}
+	return rm.reqIDToQuota.Set(reqID, append(quotaObjs, quotaObj))
 }
 
 func (rm *ResourceManagement) UpdateQuota(
